@@ -379,7 +379,7 @@ func partGraph(c *vfw.Ctx) {
 	}
 	maxDepth := 6
 	if c.Thorough() {
-		maxDepth = 8
+		maxDepth = 9
 	}
 	seen := map[string]bool{}
 	type node struct{ hist []action }
